@@ -361,74 +361,83 @@ def _wrap_op(code, name, fn, mon: Monitor):
 def _install_frames(functions, mon: Monitor, saved) -> None:
     """Live CALL/EVAL chain depth and iterations per LOOP invocation.
 
-    The chain depth is what the call-stack limit bounds: the number of
-    CALL / EVAL activations currently on the Python stack."""
+    chain: number of CALL / EVAL activations currently on the Python stack —
+    what the call-stack limit bounds. loop iterations: OP_LOOP hands the same
+    body tape to run_tape once per iteration; the first run_tape call made from
+    inside an OP_LOOP activation binds that activation's marker to the body
+    tape, every further call with the same tape is one more iteration."""
     mon.chain = 0
     mon.max_chain = 0
     mon.loop_stack = []
     mon.max_loop_iters = 0
     mon.run_tape_calls = 0
+    mon.py_depth = 0
+    mon.max_py_depth = 0
     orig_run_tape = saved['run_tape']
     orig_call, orig_eval = saved['OP_CALL'], saved['OP_EVAL']
     orig_loop = saved['OP_LOOP']
 
     def run_tape(tape, stack, cache, additional_flags={}):
         mon.run_tape_calls += 1
-        if mon.loop_stack and mon.loop_stack[-1][0] is tape:
-            mon.loop_stack[-1][1] += 1
-            if mon.loop_stack[-1][1] > mon.max_loop_iters:
-                mon.max_loop_iters = mon.loop_stack[-1][1]
-            lim = mon.loop_stack[-1][2]
-            if mon.loop_stack[-1][1] > lim:
-                mon.problem('loop-over-limit',
-                            f'loop body run {mon.loop_stack[-1][1]} times, '
-                            f'limit {lim}')
-        hook = getattr(mon, 'on_run_tape', None)
-        if hook is not None:
-            hook(tape, stack, cache)
-        return orig_run_tape(tape, stack, cache, additional_flags)
-
-    def chain_wrap(orig, kind):
-        def op(tape, stack, cache):
+        if mon.loop_stack:
+            top = mon.loop_stack[-1]
+            if top[0] is None:
+                top[0] = tape
+                top[1] = 1
+            elif top[0] is tape:
+                top[1] += 1
+            if top[0] is tape:
+                if top[1] > mon.max_loop_iters:
+                    mon.max_loop_iters = top[1]
+                if top[1] > top[2]:
+                    mon.problem('loop-over-limit',
+                                f'loop body run {top[1]} times, limit {top[2]}')
+                    if top[1] > top[2] + 3:
+                        raise BudgetExceeded()
+        if mon.chain_marks and not mon.chain_marks[-1][0]:
+            m = mon.chain_marks[-1]
+            m[0] = True
             mon.chain += 1
             if mon.chain > mon.max_chain:
                 mon.max_chain = mon.chain
-            if mon.chain > tape.callstack_limit:
+            if mon.chain > m[2]:
                 mon.problem('chain-over-limit',
-                            f'{kind} chain depth {mon.chain} > limit '
-                            f'{tape.callstack_limit}')
+                            f'{m[1]} chain depth {mon.chain} > limit {m[2]}')
+                if mon.chain > m[2] + 3:
+                    raise BudgetExceeded()
+        mon.py_depth += 1
+        if mon.py_depth > mon.max_py_depth:
+            mon.max_py_depth = mon.py_depth
+        try:
+            return orig_run_tape(tape, stack, cache, additional_flags)
+        finally:
+            mon.py_depth -= 1
+
+    mon.chain_marks = []
+
+    def chain_wrap(orig, kind):
+        def op(tape, stack, cache):
+            # an activation counts once it hands its callee to run_tape (the
+            # op's own limit check may still refuse it before that)
+            mark = [False, kind, tape.callstack_limit]
+            mon.chain_marks.append(mark)
             try:
                 return orig(tape, stack, cache)
             finally:
-                mon.chain -= 1
+                mon.chain_marks.pop()
+                if mark[0]:
+                    mon.chain -= 1
         op.__name__ = orig.__name__
+        op.__wrapped__ = orig
         return op
 
-    class _LoopTapeCatcher:
-        pass
-
     def op_loop(tape, stack, cache):
-        # the loop body tape is created inside OP_LOOP; recognise it as the
-        # first tape handed to run_tape from within this activation
-        marker = [None, 0, tape.callstack_limit]
-        mon.loop_stack.append(marker)
-        orig_hook = getattr(mon, 'on_run_tape', None)
-
-        def first(t, s, c):
-            if marker[0] is None and mon.loop_stack \
-                    and mon.loop_stack[-1] is marker:
-                marker[0] = t
-                marker[1] = 1
-                if mon.max_loop_iters < 1:
-                    mon.max_loop_iters = 1
-            if orig_hook is not None:
-                orig_hook(t, s, c)
-        mon.on_run_tape = first
+        mon.loop_stack.append([None, 0, tape.callstack_limit])
         try:
             return orig_loop(tape, stack, cache)
         finally:
-            mon.on_run_tape = orig_hook
             mon.loop_stack.pop()
+    op_loop.__wrapped__ = orig_loop
 
     functions.run_tape = run_tape
     functions.OP_CALL = chain_wrap(orig_call, 'CALL')
@@ -444,6 +453,5 @@ def _install_frames(functions, mon: Monitor, saved) -> None:
                 if fn is base:
                     functions.opcodes[code] = (name, new)
                 else:
-                    # dispatch tracer already wrapped it: re-wrap around new
                     functions.opcodes[code] = (
                         name, _wrap_op(code, name, new, mon))
